@@ -132,12 +132,17 @@ fn emit_chardef(out: &mut String) {
     writeln!(out, "pub const CHARDEF0_HEAD: [u32; 4] = {:?};", head).unwrap();
 }
 
-/// A 10-template bigram model with ragged rows and BOS/EOS entries, used by the C07 harnesses
+/// A 12-template bigram model with ragged rows and BOS/EOS entries, used by the C07 harnesses
 /// `c07_built_*`: the connectors are built natively by the *current* builders, the expected costs
 /// by the independent reference below (the defining feature-pair sum read off the three texts).
-const BIGRAM_RIGHT: &str = "1\tA,B,C,D,E,F,G,H,I,J\n2\tA,B\n3\tA,X,C,D,E,F,G,H,I,Y\n";
-const BIGRAM_LEFT: &str = "1\ta,b,c,d,e,f,g,h,i,j\n2\ta,b,c\n3\tq,b,c,d,e,f,g,h,i,z\n";
-const BIGRAM_COST: &str = "A/a\t3\nB/b\t5\nC/c\t-7\nJ/j\t11\nY/z\t13\nX/b\t17\nI/i\t19\nA/q\t23\nD/d\t-29\n/a\t100\n/c\t200\n/d\t300\n/j\t400\n/z\t500\n/q\t600\nC/\t1000\nJ/\t2000\nB/\t3000\nY/\t4000\nH/\t5000\n";
+const BIGRAM_RIGHT: &str = "1\tA,B,C,D,E,F,G,H,I,J,K,L\n2\tA,B\n3\tA,X,C,D,E,F,G,H,I,J,K,Y\n";
+const BIGRAM_LEFT: &str = "1\ta,b,c,d,e,f,g,h,i,j,k,l\n2\ta,b,c\n3\tq,b,c,d,e,f,g,h,i,j,k,z\n";
+// 12 templates, 8 of which become raw lanes: at least two of the positions 2..11 - where the
+// ragged rows have no feature - stay in the dual connector's matrix part whatever the (hash-order
+// dependent) split is, and every such position has a BOS (`/x`) and an EOS (`X/`) entry.
+const BIGRAM_COST: &str = "A/a\t3\nB/b\t5\nC/c\t-7\nJ/j\t11\nY/z\t13\nX/b\t17\nI/i\t19\nA/q\t23\nD/d\t-29\nL/l\t31\n\
+/a\t100\n/c\t200\n/d\t300\n/e\t400\n/f\t500\n/g\t600\n/h\t700\n/i\t800\n/j\t900\n/k\t1000\n/l\t1100\n/z\t1200\n/q\t1300\n\
+C/\t1000\nD/\t1100\nE/\t1200\nF/\t1300\nG/\t1400\nH/\t1500\nI/\t1600\nJ/\t1700\nK/\t1800\nL/\t1900\nY/\t2000\nB/\t2100\n";
 
 fn bigram_reference() -> Vec<Vec<i32>> {
     use std::collections::HashMap;
@@ -162,13 +167,18 @@ fn bigram_reference() -> Vec<Vec<i32>> {
     let mut want = vec![vec![0i32; l.len()]; r.len()];
     for (i, rr) in r.iter().enumerate() {
         for (j, ll) in l.iter().enumerate() {
+            let mut abs = 0;
             for k in 0..t {
                 if let (Some(a), Some(b)) = (rr.get(k), ll.get(k)) {
                     if let Some(c) = cost.get(&(a.clone(), b.clone())) {
                         want[i][j] += *c;
+                        abs += c.abs();
                     }
                 }
             }
+            // precondition of the property for the dual connector: the pre-summed part (any
+            // subset of the positions) fits in 16 bits
+            assert!(abs <= i16::MAX as i32, "model violates the 16-bit precondition of the dual connector");
         }
     }
     want
